@@ -96,7 +96,9 @@ def mutants(args):
             continue
         try:
             tmpout = tempfile.mkdtemp(prefix="xo_mutout_", dir=os.environ.get("VERIF_SCRATCH", "/tmp"))
-            for prop, want in [(m["property"], 1)] + [(q, 0) for q in m.get("quiet", [])]:
+            caught_by = []
+            plan = [(m["property"], 1)] + [(q, 1) for q in m.get("any_of", []) if q != m["property"]] + [(q, 0) for q in m.get("quiet", [])]
+            for prop, want in plan:
                 if prop not in driver.PROPS:
                     print(f"[mutant] {m['_name']}: {prop} not built yet")
                     continue
@@ -107,11 +109,26 @@ def mutants(args):
                 p = subprocess.run(cmd, capture_output=True, text=True, env=env, cwd=VERIF_DIR, timeout=1800)
                 first = [l for l in p.stdout.splitlines() if l.startswith("  seed=")]
                 ok = p.returncode == want
+                if want == 1 and m.get("any_of"):
+                    # the change is attributed by the oracles to whichever property it breaks first;
+                    # it counts as caught when at least one of the listed lenses reports it
+                    if p.returncode == 1:
+                        caught_by.append(prop)
+                    print(f"[mutant] {m['_name']}: {prop} exit {p.returncode} ({'caught' if p.returncode == 1 else 'quiet'}) {first[0].strip()[:160] if first else ''}")
+                    if p.returncode == 2:
+                        bad += 1
+                        print(p.stderr[-800:])
+                    continue
                 print(f"[mutant] {m['_name']}: {prop} exit {p.returncode} (want {want}) {'OK' if ok else 'MISSED' if want else 'FALSE-ALARM'} {first[0].strip()[:160] if first else ''}")
                 if not ok:
                     bad += 1
                     if p.returncode == 2:
                         print(p.stderr[-800:])
+            if m.get("any_of"):
+                ok = bool(caught_by)
+                print(f"[mutant] {m['_name']}: any of {[m['property']] + [q for q in m['any_of'] if q != m['property']]} -> caught by {caught_by} {'OK' if ok else 'MISSED'}")
+                if not ok:
+                    bad += 1
         finally:
             shutil.rmtree(d, ignore_errors=True)
             shutil.rmtree(tmpout, ignore_errors=True)
